@@ -6,6 +6,12 @@ Every contract snapshots its arguments (argument-mutation and aliasing checks).
 Workloads: histories on one object / one process (shard `histories`), complete tuple domains n=1,2 (quick) and n=3 (thorough, 16 shards), all ordered pairs of non-zero vectors
 n<=3 (quick) / n=4 (thorough), random tuples and reference-generated symplectic matrices up to n=10, corner tuples,
 rand_SpF2 / rand_Clifford_group as realistic producers, the repository's spf2 tests under the monitors (thorough).
+Regimes / less prominent entry points (shard `histories`, function _regimes): tuples whose entries straddle 2^31, 2^32, 2^53, 2^63,
+2^64 (n=16..40, python ints), dense vector pairs of weight >= 256 (n=128..200: the uint8 dot product of get_inner_product wraps),
+N-d x and a batch with one zero row for transvection, read-only inputs, and relational checks of every other public function of the
+anchored files that consumes the machinery: get_inner_product, int_to_bitarray, bitarray_to_int, schmidt_orthogonalization,
+rand_Clifford_group, and the enumerating consumers numqi.gate._pauli.get_pauli_subset_equivalent / get_pauli_subset_stabilizer
+(orbit-stabilizer: |orbit| * |stabilizer| == group order iff the tuple indexing is a bijection onto the group).
 """
 import itertools
 import math
@@ -33,7 +39,10 @@ RULE = ('tuple cases: (n, mixed-radix tuple t); every tuple of the complete doma
         'both documented forms transvection(v0,h0,h1) and transvection(transvection(v0,h0),h1), plus 0 / 3 transvections and 2-D x; the '
         'transvection contract judges every call form (value, 0/1 result of the input integer type, no aliasing); get_number / '
         'rand_SpF2 / from_int_tuple / to_int_tuple / inverse / find_transvection positionally and by keyword, explicit defaults, '
-        'numpy-integer n; the parameter order of the shipped API is pinned (SIGNATURES)')
+        'numpy-integer n; the parameter order of the shipped API is pinned (SIGNATURES). Regime cases (shard histories): corner tuples for '
+        'n in (16,27,32,33,40) with one entry at 2^k-1, 2^k, 2^k+1 for k in (31,32,53,63,64) where admissible, dense vector pairs n=128..200, '
+        'N-d x / one degenerate row in a batch / read-only inputs; entry-point cases: get_inner_product, int_to_bitarray, bitarray_to_int, '
+        'schmidt_orthogonalization, rand_Clifford_group against the reference, Pauli-subset orbit and stabilizer sizes against the group order')
 EXHAUSTIVE = {'quick': True, 'thorough': True}
 EXHAUSTIVE_DOMAINS = {
     'quick': ['all tuples n=1 (6), n=2 (720)', 'all 16 / 65536 binary matrices n=1,2 (brute-force group list)',
@@ -52,7 +61,7 @@ DECIDING = ['numqi.group.spf2.get_number', 'numqi.group.spf2.from_int_tuple', 'n
             'numqi.random._spf2.rand_SpF2', 'workload/tuple-roundtrip', 'workload/image-count', 'workload/vector-pair',
             'workload/vector-pair-nested', 'transvection/form/1d-x/0-h', 'transvection/form/1d-x/1-h', 'transvection/form/1d-x/2-h',
             'transvection/form/1d-x/3-h', 'transvection/form/2d-x/1-h', 'transvection/form/2d-x/2-h', 'transvection/form/2d-x/3-h', 'workload/api-forms',
-            'workload/history']
+            'workload/history', 'workload/regimes', 'workload/entry-points']
 TECHNIQUE = ('contracts on the real spf2 functions (symplecticity, two-sided inverse, transvection value, tuple range, '
              'from(to(S))==S) + exhaustive tuple/vector-pair enumeration with injectivity/count checks against an own '
              'integer reference and a brute-force list of Sp(2,F2), Sp(4,F2)')
@@ -300,7 +309,7 @@ def install(ctx, numqi):
         return [_snap(t) for t in a] if a else None
 
     def post_transvection(c):
-        """judges EVERY call form: 0, 1, 2, 3... transvections, 1-D and 2-D x"""
+        """judges EVERY call form: 0, 1, 2, 3... transvections, 1-D, 2-D and N-D x (documented: ndim>=1)"""
         allargs = _tv_args(c)
         if not allargs or c.snap is None:
             return
@@ -313,7 +322,7 @@ def install(ctx, numqi):
             hs = [_at_call_time(a, b) for a, b in zip(allargs[1:], c.snap[1:])]
         if c.exc is not None:
             return
-        if not (isinstance(x, np.ndarray) and x.ndim in (1, 2) and x.dtype.kind in 'ui'
+        if not (isinstance(x, np.ndarray) and x.ndim >= 1 and x.dtype.kind in 'ui'
                 and all(isinstance(h, np.ndarray) and h.ndim == 1 and h.size == x.shape[-1] and h.dtype.kind in 'ui' for h in hs)
                 and x.shape[-1] % 2 == 0 and int(x.max(initial=0)) <= 1 and all(int(h.max(initial=0)) <= 1 for h in hs)):
             ctx.hit('transvection/unchecked-argument')
@@ -656,6 +665,10 @@ def run(ctx, shard):
         # call-order sensitive part first (descending n in a fresh process), then the API forms
         _histories(ctx, numqi, sp, rng, tuple_case, pair_case)
         _api_forms(ctx, numqi, sp, rng, pair_case)
+        import time
+        t0 = time.time()
+        _regimes(ctx, numqi, sp, rng, tuple_case, pair_case)
+        ctx.extra['regimes_wall_s'] = round(time.time() - t0, 2)
     elif name == 'repo-tests':
         ctx.workload('repo-tests')
         _run_repo_tests(ctx, ['tests/tests_group/test_group_spf2.py'])
@@ -966,6 +979,210 @@ def _histories(ctx, numqi, sp, rng, tuple_case, pair_case):
         if S is not None and ('S', n) in memo:
             ctx.check(np.array_equal(S, memo[('S', n)]), 'from_int_tuple/differs-between-calls',
                       'the same tuple gives a different matrix at the end of the process', {'n': n, 'tuple': list(memo[n])}, point='workload/history')
+
+
+def _regimes(ctx, numqi, sp, rng, tuple_case, pair_case):
+    """lesson 3: (a) integer regime (tuple entries around 2^31, 2^32, 2^53, 2^63, 2^64; vector weights >= 256 where the uint8
+    arithmetic of get_inner_product wraps), (b) shape regime (N-d x, one degenerate row in a batch, largest sizes), (d) every other
+    public function of the anchored files that consumes the machinery + the enumerating consumers in numqi.gate._pauli,
+    (e) read-only inputs. Torch / gradients / module objects do not exist for this property."""
+    quick = ctx.tier == 'quick'
+
+    def reg(cond, key, what, wit):
+        ctx.check(cond, key, what, wit, point='workload/regimes')
+
+    def ent(cond, key, what, wit):
+        ctx.check(cond, key, what, wit, point='workload/entry-points')
+
+    # ---- (a) tuple entries straddling machine-integer boundaries (python ints; the bases exceed 2^63 from n=32 on)
+    ctx.workload('corner')
+    for n in (16, 27, 32, 33, 40):
+        base = rs.bases(n)
+        with ctx.guard('get_number'):
+            for kind in ('base', 'coset'):     # ('order' of large n: see the remark in shard random)
+                sp.get_number(n, kind=kind)
+        tuples = [tuple(b - 1 for b in base), tuple(0 for _ in base)]
+        for k in (31, 32, 53, 63, 64):
+            idx = [i for i, b in enumerate(base) if b > 2**k + 1]
+            # the first coordinate that can hold the value (quick: only there) and the last one; n=40 (the most expensive): 2^64 only
+            for i in ([] if (n == 40 and k != 64) else sorted(set(idx[:1] + ([] if quick else idx[-1:])))):
+                for v in (2**k - 1, 2**k, 2**k + 1):
+                    t = [int(rng.integers(0, min(b, 2**62))) for b in base]
+                    t[i] = v
+                    tuples.append(tuple(t))
+        for it in range(1 if quick else 20):
+            tuples.append(tuple(b - 1 - int(rng.integers(0, min(b, 2**20))) for b in base))
+        for t in dict.fromkeys(tuples):
+            S = tuple_case(n, t)
+            ctx.hit('workload/regimes')
+    # ---- (a) vectors of weight >= 256: np.dot of uint8 wraps modulo 256 inside get_inner_product (parity survives; a change of
+    # the accumulator type / modulus would not), all-ones and nearly all-ones vectors included
+    ctx.workload('random')
+    with np.errstate(over='ignore'):
+        for n in (128, 150, 200):
+            ones = np.ones(2 * n, dtype=np.uint8)
+            a = ones.copy()
+            a[0] = 0
+            b = ones.copy()
+            b[:2] = 0
+            pairs = [(ones, a), (a, ones), (ones, b), (b, a)]
+            for it in range(6 if quick else 40):
+                v0 = rng.integers(0, 2, size=2 * n).astype(np.uint8)
+                v1 = rng.integers(0, 2, size=2 * n).astype(np.uint8)
+                if it % 2:     # heavy: about 7/8 of the entries set
+                    v0 |= rng.integers(0, 2, size=2 * n).astype(np.uint8) | rng.integers(0, 2, size=2 * n).astype(np.uint8)
+                pairs.append((v0, v1))
+            for v0, v1 in pairs:
+                if v0.any() and v1.any():
+                    pair_case(v0.copy(), v1.copy())
+                    ctx.set_case({'op': 'inner-product-heavy', 'n': n, 'v0': v0, 'v1': v1})
+                    with ctx.guard('get_inner_product'):
+                        r = sp.get_inner_product(v0, v1)
+                        ent(isinstance(r, (np.integer, np.ndarray)) and np.ndim(r) == 0 and int(r) == rs.sip(v0, v1), 'get_inner_product/value',
+                            'symplectic inner product differs from the sum over qubit pairs (python ints)', lambda: {'n': n, 'got': repr(r), 'expected': rs.sip(v0, v1)})
+
+    # ---- (d) get_inner_product: 1-D / 2-D / 3-D first argument, documented result (uint8, ndim-1), alternating + symmetric + bilinear
+    for n in (1, 2, 3, 5, 8, 16):
+        for it in range(4 if quick else 30):
+            u, v, w = (rng.integers(0, 2, size=2 * n).astype(np.uint8) for _ in range(3))
+            X2 = rng.integers(0, 2, size=(int(rng.integers(1, 5)), 2 * n)).astype(np.uint8)
+            X3 = rng.integers(0, 2, size=(2, 3, 2 * n)).astype(np.uint8)
+            if it == 0:
+                X2[0] = 0         # one degenerate (zero) row in the batch
+                X3[1, 1] = 0
+            ctx.set_case({'op': 'inner-product', 'n': n, 'u': u, 'v': v})
+            ctx.case('entry-inner-product', n, u, v, X2, nontrivial=bool(u.any() and v.any()))
+            with ctx.guard('get_inner_product'):
+                r = sp.get_inner_product(u, v)
+                ent(np.ndim(r) == 0 and getattr(r, 'dtype', None) == np.uint8 and int(r) == rs.sip(u, v), 'get_inner_product/value',
+                    'symplectic inner product differs from the sum over qubit pairs (python ints)', lambda: {'u': u, 'v': v, 'got': repr(r)})
+                ent(int(sp.get_inner_product(v, u)) == int(r) and int(sp.get_inner_product(u, u)) == 0, 'get_inner_product/not-alternating',
+                    '<u,v> != <v,u> or <u,u> != 0', lambda: {'u': u, 'v': v})
+                ent((int(sp.get_inner_product((u + w) % 2, v)) - int(r) - int(sp.get_inner_product(w, v))) % 2 == 0, 'get_inner_product/not-bilinear',
+                    '<u+w,v> != <u,v> + <w,v>', lambda: {'u': u, 'w': w, 'v': v})
+                for X in (X2, X3):
+                    rb = sp.get_inner_product(X, v)
+                    exp = np.array([rs.sip(x, v) for x in X.reshape(-1, 2 * n)], dtype=np.int64).reshape(X.shape[:-1])
+                    ok = isinstance(rb, np.ndarray) and rb.shape == X.shape[:-1] and rb.dtype == np.uint8
+                    ent(ok and np.array_equal(rb, exp), 'get_inner_product/batched-value',
+                        'batched symplectic inner product (ndim>=2 first argument) differs from the per-row reference / documented uint8 result of ndim-1',
+                        lambda: {'x_shape': list(X.shape), 'v': v, 'got': rb, 'expected': exp})
+            # ---- (b) transvection: N-d x (documented ndim>=1) and a batch with ONE zero row / one row equal to h
+            ctx.set_case({'op': 'transvection-nd', 'n': n})
+            with ctx.guard('transvection-nd'):
+                r3 = sp.transvection(X3.copy(), u, v)                       # value judged by the contract (reference)
+                r2 = sp.transvection(X3.reshape(-1, 2 * n).copy(), u, v)
+                reg(isinstance(r3, np.ndarray) and isinstance(r2, np.ndarray) and r3.shape == X3.shape and np.array_equal(r3.reshape(-1, 2 * n), r2),
+                    'transvection/nd-x!=2d-x', 'a 3-D x gives other rows than the same rows as a 2-D x', lambda: {'x': X3, 'h': [u, v]})
+                Xd = np.stack([w, np.zeros(2 * n, dtype=np.uint8), u, v])
+                rd = sp.transvection(Xd.copy(), u, v)
+                rows = [sp.transvection(x.copy(), u, v) for x in Xd]
+                reg(isinstance(rd, np.ndarray) and rd.shape == Xd.shape and all(isinstance(x, np.ndarray) and x.shape == (2 * n,) for x in rows)
+                    and np.array_equal(rd, np.stack(rows)), 'transvection/batched!=single',
+                    'a batch containing a zero row / the transvection vector itself: rows differ from the 1-D calls', lambda: {'x': Xd, 'h': [u, v]})
+                r1 = sp.transvection(Xd[:1].copy(), u, v)                  # batch size 1
+                reg(isinstance(r1, np.ndarray) and r1.shape == (1, 2 * n) and isinstance(rows[0], np.ndarray) and np.array_equal(r1[0], rows[0]),
+                    'transvection/batched!=single', 'batch of size 1 differs from the 1-D call', lambda: {'x': Xd[:1], 'h': [u, v]})
+
+    # ---- (d) int_to_bitarray / bitarray_to_int (little endian), around 2^8, 2^16, 2^31, 2^32, 2^53, 2^63, 2^64
+    ctx.workload('corner')
+    ints = [0, 1, 2, 3, 5, 254, 255, 256, 257]
+    for k in (16, 31, 32, 53, 63, 64, 80):
+        ints += [2**k - 1, 2**k, 2**k + 1]
+    ints += [int(rng.integers(0, 2**62)) for _ in range(6)]
+    for i in ints:
+        for nbit in sorted({max(i.bit_length(), 1), i.bit_length() + 1, i.bit_length() + 7, 8 * ((i.bit_length() + 7) // 8) + 8}):
+            ctx.set_case({'op': 'int_to_bitarray', 'i': i, 'n': nbit})
+            ctx.case('entry-bitarray', i, nbit, nontrivial=i > 0)
+            with ctx.guard('int_to_bitarray'):
+                bits = sp.int_to_bitarray(i, nbit)
+                exp = [(i >> k) & 1 for k in range(nbit)]
+                ok = isinstance(bits, np.ndarray) and bits.shape == (nbit,) and bits.dtype == np.uint8
+                ent(ok and bits.tolist() == exp, 'int_to_bitarray/value', 'bit k of int_to_bitarray(i,n) is not (i>>k)&1 (little endian, uint8, length n)',
+                    lambda: {'i': i, 'n': nbit, 'got': bits})
+                if ok:
+                    back = sp.bitarray_to_int(bits)
+                    ent(isinstance(back, int) and back == sum(int(b) << k for k, b in enumerate(bits.tolist())), 'bitarray_to_int/value',
+                        'bitarray_to_int(b) != sum b_k 2^k', lambda: {'i': i, 'n': nbit, 'got': repr(back)})
+                    pad = np.zeros(2 * nbit, dtype=np.uint8)
+                    pad[::2] = bits
+                    ent(sp.bitarray_to_int(pad[::2]) == back, 'bitarray_to_int/layout-dependent', 'a strided view of the same bits gives another integer',
+                        {'i': i, 'n': nbit})
+                if i < 2**63:
+                    ent(_eq(sp.int_to_bitarray(np.int64(i), nbit), bits), 'int_to_bitarray/int-type-dependent', 'numpy-integer i gives other bits', {'i': i, 'n': nbit})
+
+    # ---- (d) schmidt_orthogonalization: a shuffled symplectic basis must come back as a symplectic basis [v0s..., v1s...]
+    ctx.workload('random')
+    for n in (1, 2, 3, 4, 6, 8):
+        for it in range(3 if quick else 20):
+            S = rs.rand_symplectic(rng, n)
+            rows = [S[int(i)].copy() for i in rng.permutation(2 * n)]
+            keep = [x.copy() for x in rows]
+            ctx.set_case({'op': 'schmidt', 'n': n, 'rows': np.stack(rows)})
+            ctx.case('entry-schmidt', n, np.stack(rows))
+            with ctx.guard('schmidt_orthogonalization'):
+                out = sp.schmidt_orthogonalization(rows)
+                ok = isinstance(out, list) and len(out) == 2 * n and all(isinstance(x, np.ndarray) and x.shape == (2 * n,) and x.dtype == np.uint8 for x in out)
+                M = np.stack(out) if ok else None
+                ent(ok and rs.is_binary_matrix(M, n) and rs.is_symplectic(M), 'schmidt_orthogonalization/not-a-symplectic-basis',
+                    'the 2n vectors returned for a (shuffled) symplectic basis are not a symplectic basis [v0_1..v0_n, v1_1..v1_n]',
+                    lambda: {'n': n, 'input_rows': np.stack(keep), 'got': M if ok else repr(out)[:200]})
+                ent(len(rows) == len(keep) and all(np.array_equal(a, b) for a, b in zip(rows, keep)), 'schmidt_orthogonalization/mutates-argument',
+                    'schmidt_orthogonalization modified the list / the vectors it was given', {'n': n})
+                if ok and rs.is_symplectic(M):
+                    sp.to_int_tuple(np.ascontiguousarray(M))      # indexable (contract: range + from(to(S))==S)
+
+    # ---- (e) read-only inputs (a function writing into its argument would raise / differ)
+    for n in (1, 2, 5):
+        S = rs.rand_symplectic(rng, n)
+        Sro = S.copy()
+        Sro.flags.writeable = False
+        h = rng.integers(0, 2, size=2 * n).astype(np.uint8)
+        h[int(rng.integers(2 * n))] = 1
+        hro = h.copy()
+        hro.flags.writeable = False
+        ctx.set_case({'op': 'read-only-inputs', 'n': n, 'S': S})
+        with ctx.guard('read-only-input'):
+            reg(sp.to_int_tuple(Sro) == sp.to_int_tuple(S), 'to_int_tuple/readonly-input-differs', 'a read-only copy of the matrix gives another tuple', {'n': n})
+            reg(_eq(np.ascontiguousarray(sp.inverse(Sro)), np.ascontiguousarray(sp.inverse(S))), 'inverse/readonly-input-differs', 'inverse of a read-only copy differs', {'n': n})
+            reg(_eq(sp.transvection(Sro, hro), sp.transvection(S, h)), 'transvection/readonly-input-differs', 'transvection of read-only copies differs', {'n': n})
+            reg(_eq(sp.find_transvection(Sro[0], hro), sp.find_transvection(S[0].copy(), h)), 'find_transvection/readonly-input-differs',
+                'find_transvection of read-only copies differs', {'n': n})
+
+    # ---- (d) rand_Clifford_group: (sign vector, symplectic matrix); the matrix is produced by the contracted rand_SpF2
+    ctx.workload('realistic')
+    for it in range(6 if quick else 60):
+        n = [1, 2, 10][it] if it < 3 else int(rng.integers(1, 9))
+        seed = int(rng.integers(2**31))
+        ctx.set_case({'op': 'rand_Clifford_group', 'n': n, 'seed': seed})
+        ctx.case('entry-rand-clifford', n, seed)
+        with ctx.guard('rand_Clifford_group'):
+            r = numqi.random.rand_Clifford_group(n, seed=seed)
+            ok = isinstance(r, tuple) and len(r) == 2 and all(isinstance(x, np.ndarray) for x in r)
+            ent(ok and r[0].shape == (2 * n,) and r[0].dtype == np.uint8 and int(r[0].max(initial=0)) <= 1 and rs.is_binary_matrix(r[1], n) and rs.is_symplectic(r[1]),
+                'rand_Clifford_group/not-(F2-vector,symplectic-matrix)', 'rand_Clifford_group must return a 0/1 vector of length 2n and a symplectic (2n,2n) matrix',
+                lambda: {'n': n, 'seed': seed, 'got': repr(r)[:200]})
+            if ok:
+                sp.to_int_tuple(r[1])
+
+    # ---- (d) consumers in numqi.gate._pauli that enumerate the whole group through from_int_tuple: orbit-stabilizer theorem
+    gp = numqi.gate._pauli
+    subsets = [(1, (1,)), (1, (1, 2)), (1, (1, 2, 3)), (1, (3,))]
+    pool2 = [(1, 2), (5,), (1, 6, 11), (3, 12), (1, 2, 3), (7, 9, 14, 15)]
+    pick = rng.choice(len(pool2), size=1 if quick else 4, replace=False)
+    subsets += [(2, pool2[int(i)]) for i in pick]
+    for nq, sub in subsets:
+        ctx.set_case({'op': 'pauli-subset-orbit-stabilizer', 'num_qubit': nq, 'subset': list(sub)})
+        ctx.case('entry-pauli-subset', nq, sub)
+        with ctx.guard('consumer/pauli-subset'):
+            orbit = gp.get_pauli_subset_equivalent(sub, nq)
+            stab = gp.get_pauli_subset_stabilizer(sub, nq, print_every_N=0)
+            ok = isinstance(orbit, set) and isinstance(stab, list) and len(set(stab)) == len(stab)
+            ent(ok and len(orbit) * len(stab) == rs.order(nq), 'consumer/pauli-subset/orbit*stabilizer!=order',
+                '|orbit of a Pauli subset| * |its stabilizer| != |Sp(2n,F2)| when both are enumerated through from_int_tuple (the indexing is not a bijection onto the group)',
+                lambda: {'num_qubit': nq, 'subset': list(sub), 'orbit': len(orbit) if ok else None, 'stabilizer': len(stab) if ok else None, 'order': rs.order(nq)})
+            ent(ok and tuple(sorted(sub)) in orbit and all(rs.in_range(t, nq) for t in stab), 'consumer/pauli-subset/orbit-or-stabilizer-malformed',
+                'the orbit does not contain the subset itself or a stabilizer entry is not a tuple of the mixed-radix range', {'num_qubit': nq, 'subset': list(sub)})
 
 
 def _run_repo_tests(ctx, files):
